@@ -30,8 +30,9 @@ def default_menu(fx, tier):
     if tier == "quick":
         leaves = [s for s in range(2, fl.n + 1) if fl.st(s)["kind"] == "S"]
         m["hookStates"] = sorted(set(users[:2] + leaves[:1] + leaves[-1:]))
-        m["hookKinds"] = ["change", "restart"]
-        m["hookDests"] = sorted(set([1, leaves[0], leaves[-1]] + [s for s in range(2, fl.n + 1) if fl.st(s)["kind"] != "S"][:1]))
+        m["hookKinds"] = ["change"]
+        m["hookDests"] = sorted(set([leaves[-1]] + [s for s in range(2, fl.n + 1) if fl.st(s)["kind"] != "S"][:1]))
+        m["sched"] = m["sched"][:1]
     m.update(fx.get("menus", {}).get(tier, fx.get("menus", {}).get("all", {})))
     return m
 
